@@ -284,6 +284,12 @@ def check_truthy_position(ctx, fi, rule='R-IDIOM/truthy-position'):
                     t.func, ast.Attribute) \
                     and t.func.attr in _POSITION_CALLS:
                 direct.append(t)
+            elif isinstance(t, ast.Call) and isinstance(
+                    t.func, ast.Attribute) and t.func.attr == 'get' \
+                    and len(t.args) == 1 and isinstance(
+                        t.func.value, ast.Name) and holds_positions(
+                            t.func.value.id):
+                direct.append(t)
             elif isinstance(t, ast.BoolOp):
                 for v in t.values:
                     collect(v)
